@@ -10,7 +10,8 @@ EXPLANATION = (
     "for the session mutation paths; (R4) replay (apply_wal_records) has one arm per data variant of WalRecord, each "
     "calling the table's store mutator with id-preserving constructors and same-named fields; (R5) id-preserving "
     "constructors bump the id allocators; (R7) log files are skipped/deleted only if a materialised image is loaded; "
-    "(R8) every checkpoint is preceded by a commit marker. It does not replay any log.")
+    "(R8) every checkpoint is preceded by a commit marker. (R3m) on every path that performs a store call the matching record is logged - before it, after it on every path, or skipped only on the call's own result. "
+    "It does not replay any log.")
 ASSUMPTIONS = ["property indexes, statistics and catalogs are derived or advisory state and are not required in the log",
                "methods whose store receiver is a freshly created database (save/to_memory/import_snapshot/replay) are not self-mutators"]
 
